@@ -18,8 +18,11 @@ import (
 	"encoding/hex"
 	"errors"
 	"fmt"
+	"io"
 	"net"
 	"net/http"
+	"net/url"
+	"os"
 	"sort"
 	"strconv"
 	"strings"
@@ -253,6 +256,60 @@ var (
 	errCrashed  = errors.New("process crashed")
 )
 
+type timeoutErr struct{}
+
+func (timeoutErr) Error() string   { return "i/o timeout" }
+func (timeoutErr) Timeout() bool   { return true }
+func (timeoutErr) Temporary() bool { return true }
+
+// ordinaryError is the error value of an `e` fault at call position p. All of
+// them are ordinary failures for the indexer (none is, or wraps, a context
+// error; none is a *net.AddrError when the call is a scanner): connection
+// refused, DNS timeout, HTTP client timeout, file deadline, truncated stream, a
+// *net.AddrError from the datastore, ... The position picks the shape, so every
+// run meets all of them at every kind of call.
+func ordinaryError(p int, letter byte) error {
+	switch p % 8 {
+	case 1:
+		return &net.OpError{Op: "dial", Net: "tcp", Err: errors.New("connect: connection refused")}
+	case 2:
+		return &net.DNSError{Err: "i/o timeout", Name: "stub.invalid", IsTimeout: true}
+	case 3:
+		return &url.Error{Op: "Get", URL: "https://stub.invalid/x", Err: timeoutErr{}}
+	case 4:
+		return fmt.Errorf("reading layer: %w", os.ErrDeadlineExceeded)
+	case 5:
+		return fmt.Errorf("decoding: %w", io.ErrUnexpectedEOF)
+	case 6:
+		return &net.ParseError{Type: "IP address", Text: "stub"}
+	case 7:
+		if letter != 'S' {
+			return fmt.Errorf("connecting to the database: %w", &net.AddrError{Err: "missing port in address", Addr: "db"})
+		}
+	}
+	return errInjected
+}
+
+func canceledError(p int) error {
+	switch p % 3 {
+	case 1:
+		return context.Canceled
+	case 2:
+		return errors.Join(errors.New("rolling back"), fmt.Errorf("query: %w", context.Canceled))
+	}
+	return fmt.Errorf("injected: %w", context.Canceled)
+}
+
+func deadlineError(p int) error {
+	switch p % 3 {
+	case 1:
+		return context.DeadlineExceeded
+	case 2:
+		return errors.Join(errors.New("rolling back"), fmt.Errorf("query: %w", context.DeadlineExceeded))
+	}
+	return fmt.Errorf("injected: %w", context.DeadlineExceeded)
+}
+
 // ---- the world --------------------------------------------------------------
 
 // ScanEvent is one successful entry into a stub scanner's Scan.
@@ -360,11 +417,11 @@ func (w *World) enter(ctx context.Context, letter byte) (error, bool) {
 	}
 	switch w.script[p] {
 	case FErr:
-		return fail(errInjected)
+		return fail(ordinaryError(p, letter))
 	case FCanceled:
-		return fail(fmt.Errorf("injected: %w", context.Canceled))
+		return fail(canceledError(p))
 	case FDeadline:
-		return fail(fmt.Errorf("injected: %w", context.DeadlineExceeded))
+		return fail(deadlineError(p))
 	case FCancelCtx:
 		w.cancel()
 		return fail(context.Canceled)
@@ -379,7 +436,7 @@ func (w *World) enter(ctx context.Context, letter byte) (error, bool) {
 	case FCommitErr:
 		w.failed = true
 		w.trace = append(w.trace, letter|0x20)
-		return errInjected, true
+		return ordinaryError(p, letter), true
 	}
 	w.trace = append(w.trace, letter)
 	okF()
